@@ -62,8 +62,8 @@ func runVCs(vcs []VC, workDir string, timeout time.Duration, par int) []vcResult
 			}
 			file := filepath.Join(workDir, sanitizeFile(vcs[i].Name)+".smt2")
 			to := timeout
-			if vcs[i].ExpectSat && to > 2*time.Second {
-				to = 2 * time.Second
+			if vcs[i].ExpectSat && to > 1*time.Second {
+				to = 1 * time.Second
 			}
 			out[i].res = solve(vcs[i].Script, file, to, vcs[i].ExpectSat)
 		}(i)
@@ -126,7 +126,7 @@ func devCmd(args []string) {
 			}
 		}
 		if *verbose || (st != "unsat" && st != "ok(canary)") {
-			fmt.Printf("%-12s %-70s %s %.2fs %s\n", st, r.vc.Name, r.res.Solver, r.res.Seconds, truncate(strings.ReplaceAll(r.res.Output, "\n", " "), 150))
+			fmt.Printf("%-12s %-70s %s %.2fs %s @%s\n", st, r.vc.Name, r.res.Solver, r.res.Seconds, truncate(strings.ReplaceAll(r.res.Output, "\n", " "), 100), r.vc.Pos)
 		}
 	}
 	fmt.Println(counts, fmt.Sprintf("%.1fs", time.Since(start).Seconds()))
